@@ -195,3 +195,22 @@ theorem crStep_selfContained (tz : Bool) (line : List Char)
       rw [splitLastCr_eq line a t hs, final_drop_cr init a t (hcr a t hs)]
 
 end IngestProofs
+
+/-! ### Relativized diff-stat lines -/
+namespace StatProofs
+open Term Line LineProofs
+
+theorem suffix_verbatim : Generated.StyleTables.statSuffixVerbatim = true := by decide
+
+/-- The rewritten diff-stat line ends in the state git's own `| N +++---` part ends in: the path
+piece and the padding are neutral, the suffix is copied whole. -/
+theorem statLine_final (path : Piece) (pad : Nat) (suffix : List Char) (hp : Neutral path.chars) :
+    final init (statLine path pad suffix) = final init suffix := by
+  have hsp : Neutral [' '] := neutral_text _ (by decide)
+  have hpad : Neutral (List.replicate pad ' ') := neutral_text _ (by
+    intro h; exact absurd (List.eq_of_mem_replicate h) (by decide))
+  have : statLine path pad suffix = ([' '] ++ path.chars ++ List.replicate pad ' ') ++ suffix := by
+    simp [statLine]
+  rw [this, final_append, neutral_append _ _ (neutral_append _ _ hsp hp) hpad init rfl rfl]
+
+end StatProofs
